@@ -243,7 +243,11 @@ class CharacterClass(MutableSet[int]):
         self.negative.clear()
 
     def complement(self) -> None:
-        if self.positive or self.negative:
+        if self.positive and self.negative:
+            # the complement of (positive | ~negative) is (negative - positive)
+            self.negative -= self.positive
+            self.positive, self.negative = self.negative, UnicodeSubset()
+        elif self.positive or self.negative:
             self.positive, self.negative = self.negative, self.positive
         else:
             self.positive.codepoints = [(0, maxunicode + 1)]
